@@ -367,7 +367,7 @@ class Sym:
     def __iter__(self): return Iter(self._tag, self._env)
     def __format__(self, spec): return '\x01F<%r|%s>' % (self._tag, spec)
     def __str__(self): return '\x01S<%r>' % (self._tag,)
-    def __repr__(self): return '\x01R<%r>' % (self._tag,)
+    def __repr__(self): return '\x01R<%r>\u00e9' % (self._tag,)       # a non-ASCII character: `!a` (ascii) differs from `!r`
 
 
 for _s, _n in [('+', 'add'), ('-', 'sub'), ('*', 'mul'), ('/', 'truediv'), ('//', 'floordiv'), ('%', 'mod'), ('**', 'pow'), ('<<', 'lshift'),
@@ -499,9 +499,13 @@ def fold_fstring(tag):
                 v = {115: str, 114: repr, 97: ascii}.get(conv, lambda x: x)(c)
                 return ('atom', const_atom(format(v, spec)))
             except Exception: return tag
-        if conv == 115: r = format('\x01S<%r>' % (args[0],), spec)
-        elif conv in (114, 97): r = format('\x01R<%r>' % (args[0],), spec)
-        else: r = '\x01F<%r|%s>' % (args[0], spec)
+        try:
+            if conv == 115: r = format('\x01S<%r>' % (args[0],), spec)
+            elif conv == 114: r = format('\x01R<%r>\u00e9' % (args[0],), spec)
+            elif conv == 97: r = format(('\x01R<%r>\u00e9' % (args[0],)).encode('ascii', 'backslashreplace').decode('ascii'), spec)
+            else: r = '\x01F<%r|%s>' % (args[0], spec)
+        except ValueError:
+            raise SkipValidation('str.__format__ rejects the format spec (the real run raises ValueError)')
         return ('atom', const_atom(r))
     if f == 'joinedstr':
         parts = []
@@ -1084,7 +1088,8 @@ TRANSPARENT_UNARY = ('neg', 'attr', 'isnone', 'isnotnone', 'attr2', 'bnot', 'pos
 TRANSPARENT_BINARY = ('lt', 'add', 'in', 'sub', 'callkw', 'ne', 'le', 'mul', 'notin', 'call2', 'meth', 'tuple2', 'list2', 'sliceto', 'gt', 'ge', 'subm', 'div', 'fdiv', 'mod', 'pow', 'shl', 'shr', 'band', 'bor', 'bxor', 'matmul', 'set2', 'dict2', 'dictk', 'kwstarcall')
 EXTRA = {'bnot': '~%s', 'pos': '+%s', 'attr2': '%s.q.r', 'ne': '%s != %s', 'le': '%s <= %s', 'mul': '%s * %s', 'notin': '%s not in %s',
          'call2': 'f(%s, %s)', 'meth': '%s.m(%s)', 'tuple2': '(%s, %s)', 'list2': '[%s, %s]', 'sliceto': '%s[:%s]',
-         'fstr': "f'v{%s}w'", 'fstr2': "f'{%s!r}{%s:>4}'", 'slice3': '%s[%s:%s:%s]', 'slicetuple': '%s[%s:%s, %s]', 'slicetuple2': '%s[%s, :%s, %s:]', 'gen': '(y for y in %s if %s)', 'genq': '(y.p for y in %s)',
+         'fstr': "f'v{%s}w'", 'fstr2': "f'{%s!r}{%s:>4}'", 'fstr3': "f'{%s!r:>8}'", 'fstr3s': "f'{%s!s:>8}'", 'fstr3a': "f'v{%s!a:<9}'",
+         'fstr4': "f'{%s!s:{%s}}'", 'fstr4r': "f'{%s!r:{%s}}w'", 'fstr5': "f'{%s!a:{%s}.{%s}}'", 'fstr5r': "f'{%s!r:{%s}.{%s}}'", 'fstr6': "f'{%s:{%s}.{%s}}'", 'fstr1a': "f'{%s!a}'", 'fstr1s': "f'{%s!s}'", 'slice3': '%s[%s:%s:%s]', 'slicetuple': '%s[%s:%s, %s]', 'slicetuple2': '%s[%s, :%s, %s:]', 'gen': '(y for y in %s if %s)', 'genq': '(y.p for y in %s)',
          'gt': '%s > %s', 'ge': '%s >= %s', 'subm': '%s - %s', 'div': '%s / %s', 'fdiv': '%s // %s', 'mod': '%s %% %s', 'pow': '%s ** %s',
          'shl': '%s << %s', 'shr': '%s >> %s', 'band': '%s & %s', 'bor': '%s | %s', 'bxor': '%s ^ %s', 'matmul': '%s @ %s',
          'set2': '{%s, %s}', 'dict2': "{'k': %s, 'j': %s}", 'dictk': '{%s: %s}', 'clist': '%s in [1, 2, 3]', 'ctuple': '%s in (1, 2)',
@@ -1149,17 +1154,17 @@ def rand_expr(rng, size, scope, value_pos=True):
         return ('a', rng.choice(scope))
     r = rng.random()
     if r < 0.22 or size == 2:
-        k = rng.choice(['not', 'not', 'neg', 'attr', 'call1', 'isnone', 'isnotnone', 'attr2', 'fstr', 'genq'] + (['bnot', 'pos'] if rng.random() < 0.1 else [])
+        k = rng.choice(['not', 'not', 'neg', 'attr', 'call1', 'isnone', 'isnotnone', 'attr2', 'fstr', 'genq', 'fstr3', 'fstr3s', 'fstr3a'] + (['bnot', 'pos'] if rng.random() < 0.1 else [])
                        + (['clist', 'ctuple', 'starcall', 'lamarg', 'lamarg1', 'lamarg1', 'walrus', 'listcomp', 'setcomp', 'dictcomp'] if rng.random() < 0.3 else []))
         return (k, rand_expr(rng, size - 1, scope, False))
     if r < 0.80 or size == 3:
-        k = rng.choice(['and', 'and', 'or', 'or', 'eq', 'lt', 'add', 'in', 'sub', 'callkw', 'ne', 'le', 'mul', 'notin', 'call2', 'meth', 'tuple2', 'sliceto', 'fstr2', 'gen']
+        k = rng.choice(['and', 'and', 'or', 'or', 'eq', 'lt', 'add', 'in', 'sub', 'callkw', 'ne', 'le', 'mul', 'notin', 'call2', 'meth', 'tuple2', 'sliceto', 'fstr2', 'fstr4', 'fstr4r', 'gen']
                        + (['gt', 'ge', 'subm', 'div', 'fdiv', 'mod', 'pow', 'shl', 'shr', 'band', 'bor', 'bxor', 'matmul', 'set2', 'dict2', 'dictk', 'list2', 'kwstarcall'] if rng.random() < 0.35 else []))
         i = rng.randint(1, size - 2)
         if k == 'gen':
             return (k, rand_expr(rng, i, scope, False), rand_expr(rng, size - 1 - i, scope + ['y'], False))
         return (k, rand_expr(rng, i, scope, False), rand_expr(rng, size - 1 - i, scope, k not in ('and', 'or')))
-    k = rng.choice(['ife', 'ife', 'ife', 'chain', 'slice', 'and3', 'or3', 'kw2'] + (['slice3', 'slicetuple', 'slicetuple2'] if size > 4 else []))
+    k = rng.choice(['ife', 'ife', 'ife', 'chain', 'slice', 'and3', 'or3', 'kw2', 'fstr5', 'fstr5r', 'fstr6'] + (['slice3', 'slicetuple', 'slicetuple2'] if size > 4 else []))
     n = 4 if k in ('slice3', 'slicetuple', 'slicetuple2') else 3
     cuts = sorted(rng.sample(range(1, size - 1), n - 1)) if size - 2 >= n - 1 else None
     if cuts is None: return rand_expr(rng, size, scope, value_pos) if size < 4 else ('ife',) + tuple(rand_expr(rng, 1, scope) for _ in range(3))
@@ -1584,6 +1589,10 @@ def run(ctx):
         for kind in ('cond', 'elt', 'lam'): programs.append(prog_of(kind, (k, a_, b_)))
     for k in list(TERNARY) + ['and3', 'or3', 'kw2']:
         for kind in ('cond', 'elt', 'lam'): programs.append(prog_of(kind, (k, a_, b_, c_)))
+    # f-string fields: conversion x format spec (constant spec, nested `{w}` spec, `{w}.{p}` spec), in every position and as an operand
+    for e in (('fstr3', a_), ('fstr3s', a_), ('fstr3a', a_), ('fstr1a', a_), ('fstr1s', a_), ('fstr4', a_, b_), ('fstr4r', a_, b_), ('fstr5', a_, b_, c_), ('fstr5r', a_, b_, c_), ('fstr6', a_, b_, c_)):
+        for kind in ('cond', 'elt', 'lam'):
+            programs.append(prog_of(kind, e)); programs.append(prog_of(kind, ('eq', d_, e))); programs.append(prog_of(kind, ('call1', e)))
     wal = ('walrus', b_)
     for e in (('call1', wal), ('and', a_, ('call1', wal)), ('eq', wal, c_), ('and', wal, c_), ('ife', wal, c_, d_), ('tuple2', wal, ('a', 'w'))):
         for kind in ('cond', 'elt', 'lam'): programs.append(prog_of(kind, e))
